@@ -430,13 +430,9 @@ def parseMember : Nat → PS σ → PRes σ Ast
 def parseMemberLoop : Nat → Prim → List MOp → PS σ → PRes σ Ast
   | 0, _, _, ps => pFail T ps
   | f + 1, p, acc, ps =>
-    let primSp : Span := match p with
-      | .ident sp _ | .parens sp _ | .list sp _ | .map sp _ | .null sp | .int sp _ | .uint sp _
-      | .float sp _ | .str sp _ | .bytes sp _ | .bool sp _ | .fstr sp _ => sp
-    let opSp : MOp → Span := fun | .access sp .. => sp | .call sp _ => sp | .index sp _ => sp
     let done (ps : PS σ) : PRes σ Ast :=
       let chain := acc.reverse
-      .ok (.member (joinAll primSp (chain.map opSp)) p chain, ps)
+      .ok (.member (joinAll p.span (chain.map MOp.span)) p chain, ps)
     match pPeek T ps with
     | .error e => .error e
     | .ok (some (.dot, dsp), ps1) =>
@@ -595,15 +591,18 @@ end
 /-- Recursion fuel that is always sufficient: one unit per grammar level and loop iteration. -/
 def parseFuel (srcLen : Nat) : Nat := srcLen * 4 + 2000
 
-/-- `CelCompiler::compile` (syntax side): one expression, then end of input. -/
-def parseProgram (src : Str) : Except PErr Ast :=
-  match parseExpr T (parseFuel src.length) { ts := T.ofText src, depth := 0, minLit := false } with
+/-- `CelCompiler::compile` (syntax side) on a token source: one expression, then end of input. -/
+def parseFrom (fuel : Nat) (ts : σ) : Except PErr Ast :=
+  match parseExpr T fuel { ts := ts, depth := 0, minLit := false } with
   | .error e => .error e
   | .ok (a, ps) =>
     match pPeek T ps with
     | .error e => .error e
     | .ok (none, _) => .ok a
     | .ok (some _, ps') => .error ⟨T.loc ps'.ts⟩
+
+def parseProgram (src : Str) : Except PErr Ast :=
+  parseFrom T (parseFuel src.length) (T.ofText src)
 
 end
 
